@@ -450,7 +450,7 @@ def x224_connect(ctx, mir, stats):
                         "detail": "a path returns Ok without looking at the server's selected protocol", "path": p.trace, "where": f.name})
             continue
         d32 = z3.Extract(31, 0, discr)
-        good = z3.And(z3.Or(discr == 1, discr == 2), (d32 & offered) != 0)
+        good = z3.And(z3.Or(d32 == 1, d32 == 2), (d32 & offered) != 0)
         verdict, mdl, smt = se.check(p, [z3.Not(good)], "selection honoured")
         cvc5_check(smt, verdict, stats)
         selv = None
@@ -460,7 +460,7 @@ def x224_connect(ctx, mir, stats):
                 s2.add(c)
             s2.add(z3.Not(good))
             s2.check()
-            selv = s2.model().eval(discr, model_completion=True).as_long()
+            selv = s2.model().eval(d32, model_completion=True).as_long()
             offv = s2.model().eval(offered, model_completion=True).as_long()
             mdl = {"selected_protocol": selv, "offered_mask": offv}
         obs.append({"id": "x224::connect:selection-offered-and-tls[%s]" % p.trace[-3], "ok": verdict == "unsat", "functions": [f.name],
